@@ -8,6 +8,10 @@ RE_MENU = [
     (r'#[0-9a-f]{2}', lambda r: '#' + ''.join(r.choice('0123456789abcdef') for _ in range(2))),
     (r'[A-Z]\w*', lambda r: r.choice('ABCXYZ') + ''.join(r.choice('abc_9') for _ in range(r.randint(0, 3)))),
     (r'<(\w+)>', lambda r: '<' + ''.join(r.choice('abc12') for _ in range(r.randint(1, 3))) + '>'),
+    # regular expressions without any metacharacter (they look like plain words but are regex matches: the value is
+    # the text as written)
+    (r'kgs', lambda r: 'kgs'),
+    (r'Unit_9', lambda r: 'Unit_9'),
 ]
 SYMS = ['{', '}', ',', ';', '->', ':', '(', ')', '=', '@', '%%']
 
@@ -55,7 +59,7 @@ class G:
                 rl.skipws = r.choice([True, False])
                 self.used_features.add('skipws-mod')
             elif r.random() < self.pws:
-                rl.ws = r.choice([' ', ' \t', '\n ', ' \t\n'])
+                rl.ws = r.choice([' ', ' \t', '\n ', ' \t\n', ' \t\r\n', '\r\n ', ' \r'])
                 self.used_features.add('ws-mod')
         if r.random() < self.pcomment:
             rules.append(Rule('Comment', Re(r'//.*$') if r.random() < 0.7 else Re(r'/\*(.|\n)*?\*/')))
